@@ -18,18 +18,39 @@
 (*                      doExclusionSearch                                  *)
 (* Dev = {} is the sound design and satisfies NeverSkipsMatch.  Members of *)
 (* Dev switch one rule to a wrong variant.                                 *)
-(*  mutation seeds (self-test: each one makes TLC find a counterexample):  *)
+(*  mutation seeds (self-test: each one makes TLC find a counterexample,    *)
+(*  and Distinguishes(D) below turns every one into directed test cases):  *)
 (*   le_as_lt                  `<=` builds the range of `<`                *)
+(*   ge_as_gt                  `>=` builds the range of `>`                *)
 (*   or_as_and                 Mark.Or computed as Mark.And                *)
 (*   last_fragment_off_by_one  the index entry closing the last fragment   *)
 (*                             is the last row but one                     *)
 (*   null_as_minus_infinity    a null index cell becomes -infinity         *)
+(*   -- checkInAnyRange works IN PLACE on ONE slice of ranges `rgs` that   *)
+(*      all hyper-rectangles of one MayBeInRange call share; the slips of  *)
+(*      that shared state:                                                 *)
+(*   stale_range_between_rectangles  checkRangeLeftRightBound does not     *)
+(*                             reset rgs[prefixSize+1..] to whole ranges:  *)
+(*                             the right-bound rectangle sees what the     *)
+(*                             left-bound rectangle narrowed               *)
+(*   left_point_stale          checkRangeLeftBound does not re-point       *)
+(*                             rgs[prefixSize] to [x1]: it keeps (x1..x2)  *)
+(*   right_point_stale         checkRangeRightBound does not re-point      *)
+(*                             rgs[prefixSize] to [x2]: it keeps [x1]      *)
+(*   last_column_open          the rectangle of the last used key column   *)
+(*                             excludes its bounds                         *)
+(*   -- the search procedures of primary_index.go:                         *)
+(*   excl_drops_leftmost       doExclusionSearch does not push the         *)
+(*                             leftmost part of a range it splits          *)
+(*   bin_end_off_by_one        doBinarySearch ends the range one fragment  *)
+(*                             early (End = left instead of right)         *)
 (*  variants that lose precision only (TLC finds no counterexample; they   *)
 (*  show what the invariant does NOT depend on):                           *)
 (*   lt_as_le, and_as_or (canBeTrue grows), binary_search_always (given    *)
 (*   MayCoversMatch binary search returns a contiguous cover of all        *)
 (*   matching fragments whatever the condition)                            *)
-(*  as-implemented behaviour of open findings (known_findings.json):       *)
+(*  as-implemented behaviour of findings (known_findings.json; F-C20-1 is   *)
+(*  fixed in /repo and kept as a regression seed):                         *)
 (*   right_bound_overwrites    F-C20-1 checkRangeRightBound returns the    *)
 (*                             mask of the last hyper-rectangle only       *)
 (*   unknown_op_drops_element  F-C20-3 no RPN element for LIKE / MATCH     *)
@@ -71,8 +92,11 @@ Null   == 4
 PosInf == 4
 NegInf == -2
 KV == Vals \cup (IF WithNull THEN {Null} ELSE {})
+\* the values of key column c (configurations over a tiny domain narrow single columns)
+ColVals(c) == Vals
+ColKV(c) == ColVals(c) \cup (IF WithNull THEN {Null} ELSE {})
 
-Tup(kk) == [1..kk -> KV]
+Tup(kk) == {t \in [1..kk -> KV] : \A c \in 1..kk : t[c] \in ColKV(c)}
 
 RECURSIVE LexLE(_, _, _)
 LexLE(a, b, i) == IF i > Len(a) THEN TRUE
@@ -113,9 +137,9 @@ FragOfRow(i, gg) == (i - 1) \div gg        \* 0-based fragment of the 1-based ro
 CmpOps == {"eq", "ne", "lt", "le", "gt", "ge"}
 StrOps == {"like", "match", "matchphrase"}
 
-CmpAtoms(kk) == {[t |-> "cmp", c |-> c, op |-> o, v |-> v] : c \in 1..kk, o \in CmpOps, v \in Vals}
-InAtoms(kk)  == {[t |-> "in", c |-> c, vs |-> s] : c \in 1..kk, s \in (SUBSET Vals) \ {{}}}
-StrAtoms(kk) == {[t |-> "strop", c |-> c, op |-> o, v |-> v] : c \in 1..kk, o \in StrOps, v \in Vals}
+CmpAtoms(kk) == UNION {{[t |-> "cmp", c |-> c, op |-> o, v |-> v] : o \in CmpOps, v \in ColVals(c)} : c \in 1..kk}
+InAtoms(kk)  == UNION {{[t |-> "in", c |-> c, vs |-> s] : s \in (SUBSET ColVals(c)) \ {{}}} : c \in 1..kk}
+StrAtoms(kk) == UNION {{[t |-> "strop", c |-> c, op |-> o, v |-> v] : o \in StrOps, v \in ColVals(c)} : c \in 1..kk}
 NonKey == [t |-> "nonkey"]
 
 \* the atoms of the exhaustive configurations (IN, string operators in the larger ones)
@@ -209,7 +233,7 @@ AtomElem(dv, ty, a) ==
            [] a.op = "le" -> [e |-> "InRange",    c |-> a.c, rg |-> RightB(a.v, "le_as_lt" \notin dv)]
            [] a.op = "gt" -> [e |-> "InRange",    c |-> a.c, rg |-> IF ty[a.c] = "ia" THEN LeftB(a.v + 1, TRUE)
                                                                      ELSE LeftB(a.v, FALSE)]
-           [] a.op = "ge" -> [e |-> "InRange",    c |-> a.c, rg |-> LeftB(a.v, TRUE)])
+           [] a.op = "ge" -> [e |-> "InRange",    c |-> a.c, rg |-> LeftB(a.v, "ge_as_gt" \notin dv)])
     [] a.t = "in"     -> [e |-> "InSet", c |-> a.c, vs |-> a.vs]
     [] a.t = "strop"  -> IF a.op = "matchphrase" /\ "matchphrase_as_equality" \in dv
                            THEN [e |-> "InRange", c |-> a.c, rg |-> Point(a.v)]
@@ -262,44 +286,70 @@ CheckInRange(dv, rpn, rgs) == RunRPN(dv, rpn, 1, <<>>, rgs)
 (* and R (both inclusive) decomposed into hyper-rectangles by key prefix:    *)
 (*    (x1 .. x2) x (-inf .. +inf),  [x1] x [y1 .. +inf),  [x2] x (-inf .. y2] *)
 (* p = number of key columns already fixed (prefixSize).                     *)
+(*                                                                           *)
+(* As written in condition.go the rectangles are NOT built one by one: there *)
+(* is ONE slice of ranges `rgs` per MayBeInRange call, and every step        *)
+(* (common-prefix loop, checkRangeLeftRightBound, checkRangeLeftBound,       *)
+(* checkRangeRightBound and their recursive calls) narrows or resets single  *)
+(* entries of it IN PLACE before it calls CheckInRange.  What a later        *)
+(* rectangle sees in the columns it does not assign is what the earlier      *)
+(* steps left there.  The transcription therefore threads the slice through: *)
+(* every step returns [m |-> its mask, rgs |-> the slice as it leaves it].   *)
+(* The algorithm is right because checkRangeLeftRightBound RESETS the        *)
+(* columns behind prefixSize to whole ranges, and because the left / right   *)
+(* bound steps re-point column prefixSize before they recurse.               *)
 RECURSIVE PrefixEnd(_, _, _, _)
 PrefixEnd(L, R, p, ks) == IF p < ks /\ L[p + 1] = R[p + 1] THEN PrefixEnd(L, R, p + 1, ks) ELSE p
 
+MR(m, rgs) == [m |-> m, rgs |-> rgs]
+
 RECURSIVE AnyRange(_, _, _, _, _, _, _, _, _)
 AnyRange(dv, rpn, ks, L, R, lb, rb, rgs0, p0) ==
-  IF ~lb /\ ~rb THEN CheckInRange(dv, rpn, rgs0)
+  IF ~lb /\ ~rb THEN MR(CheckInRange(dv, rpn, rgs0), rgs0)
   ELSE
+    \* the common-prefix loop: rgs[prefixSize] = [x, x] while the two keys agree
     LET p    == IF lb /\ rb THEN PrefixEnd(L, R, p0, ks) ELSE p0
         rgs1 == TLCEval([i \in 1..ks |-> IF i > p0 /\ i <= p THEN Point(L[i]) ELSE rgs0[i]])
     IN
-    IF p = ks THEN CheckInRange(dv, rpn, rgs1)
+    IF p = ks THEN MR(CheckInRange(dv, rpn, rgs1), rgs1)
     ELSE
       LET c == p + 1 IN
       IF c = ks
-      THEN CheckInRange(dv, rpn, [rgs1 EXCEPT ![c] =
-               IF lb /\ rb THEN Rg(L[c], R[c], TRUE, TRUE)
-               ELSE IF lb THEN LeftB(L[c], TRUE) ELSE RightB(R[c], TRUE)])
+      THEN \* checkRangeLeftRightBound, prefixSize+1 == keySize: the last used column, bounds included
+           LET cl   == "last_column_open" \notin dv
+               rgs2 == [rgs1 EXCEPT ![c] = IF lb /\ rb THEN Rg(L[c], R[c], cl, cl)
+                                           ELSE IF lb THEN LeftB(L[c], cl) ELSE RightB(R[c], cl)]
+           IN MR(CheckInRange(dv, rpn, rgs2), rgs2)
       ELSE
+        \* checkRangeLeftRightBound: (x1 .. x2) x whole ranges; the loop that resets rgs[prefixSize+1..]
         LET mid  == IF lb /\ rb THEN Rg(L[c], R[c], FALSE, FALSE)
                     ELSE IF lb THEN LeftB(L[c], FALSE) ELSE RightB(R[c], FALSE)
-            rgsM == TLCEval([i \in 1..ks |-> IF i = c THEN mid ELSE IF i > c THEN Whole ELSE rgs1[i]])
+            rgsM == TLCEval([i \in 1..ks |-> IF i = c THEN mid
+                                             ELSE IF i > c /\ "stale_range_between_rectangles" \notin dv THEN Whole
+                                             ELSE rgs1[i]])
             m0   == MOr(dv, ConsiderOnlyBeTrue, CheckInRange(dv, rpn, rgsM))
         IN
-        IF Complete(m0) THEN m0
+        IF Complete(m0) THEN MR(m0, rgsM)
         ELSE
-          LET mL == IF lb THEN MOr(dv, m0, AnyRange(dv, rpn, ks, L, R, TRUE, FALSE, [rgsM EXCEPT ![c] = Point(L[c])], c))
-                    ELSE m0
+          \* checkRangeLeftBound: rgs[prefixSize] = [x1], recursion with the left keys only
+          LET rgsLin == IF "left_point_stale" \in dv THEN rgsM ELSE [rgsM EXCEPT ![c] = Point(L[c])]
+              lres   == IF lb THEN AnyRange(dv, rpn, ks, L, R, TRUE, FALSE, rgsLin, c) ELSE MR(m0, rgsM)
+              mL     == IF lb THEN MOr(dv, m0, lres.m) ELSE m0
           IN
-          IF lb /\ Complete(mL) THEN mL
-          ELSE IF ~rb THEN mL
-          ELSE LET mR == AnyRange(dv, rpn, ks, L, R, FALSE, TRUE, [rgsM EXCEPT ![c] = Point(R[c])], c)
+          IF lb /\ Complete(mL) THEN MR(mL, lres.rgs)
+          ELSE IF ~rb THEN MR(mL, lres.rgs)
+          ELSE \* checkRangeRightBound: rgs[prefixSize] = [x2], recursion with the right keys only, on the
+               \* slice as the left-bound step left it
+               LET rgsRin == IF "right_point_stale" \in dv THEN lres.rgs ELSE [lres.rgs EXCEPT ![c] = Point(R[c])]
+                   rres   == AnyRange(dv, rpn, ks, L, R, FALSE, TRUE, rgsRin, c)
                IN IF "right_bound_overwrites" \in dv
-                    THEN mR                \* as implemented: checkRangeRightBound returns `mark`, not `res`
-                    ELSE MOr(dv, mL, mR)
+                    THEN MR(rres.m, rres.rgs)    \* F-C20-1 (fixed): checkRangeRightBound returned `mark`, not `res`
+                    ELSE MR(MOr(dv, mL, rres.m), rres.rgs)
 
 \* MayBeInRange over the index entries s..e (0-based): may a row of the fragments s..e-1 satisfy the condition
+\* (a fresh slice of whole ranges per call)
 MayBe(dv, rpn, ks, idx, s, e) ==
-  AnyRange(dv, rpn, ks, idx[s], idx[e], TRUE, TRUE, TLCEval([i \in 1..ks |-> Whole]), 0).t
+  AnyRange(dv, rpn, ks, idx[s], idx[e], TRUE, TRUE, TLCEval([i \in 1..ks |-> Whole]), 0).m.t
 
 -----------------------------------------------------------------------------
 (* The two search procedures of primary_index.go over a table                *)
@@ -312,32 +362,33 @@ RECURSIVE BinRight(_, _, _, _)
 BinRight(may, l, r, nf) == IF l + 1 < r
                            THEN LET m == (l + r) \div 2 IN IF may[<<m, nf>>] THEN BinRight(may, m, r, nf) ELSE BinRight(may, l, m, nf)
                            ELSE r
-BinarySearch(may, nf) ==
+BinarySearch(dv, may, nf) ==
   LET s == BinLeft(may, 0, nf)
-      e == BinRight(may, s, nf, nf)
+      e == BinRight(may, s, nf, nf) - (IF "bin_end_off_by_one" \in dv THEN 1 ELSE 0)
   IN IF s < e /\ may[<<s, e>>] THEN s..(e - 1) ELSE {}
 
 \* the ranges pushed for a range that may match and is wider than one fragment (right to left, the
 \* leftmost part last so that it is popped first)
-RECURSIVE Pushes(_, _, _, _)
-Pushes(s, en, step, acc) == IF en > s + step THEN Pushes(s, en - step, step, Append(acc, <<en - step, en>>))
-                            ELSE Append(acc, <<s, en>>)
+RECURSIVE Pushes(_, _, _, _, _)
+Pushes(dv, s, en, step, acc) == IF en > s + step THEN Pushes(dv, s, en - step, step, Append(acc, <<en - step, en>>))
+                                ELSE IF "excl_drops_leftmost" \in dv /\ acc # <<>> THEN acc
+                                ELSE Append(acc, <<s, en>>)
 
-RECURSIVE Excl(_, _, _, _, _)
-Excl(may, stack, res, coarse, minMarks) ==
+RECURSIVE Excl(_, _, _, _, _, _)
+Excl(dv, may, stack, res, coarse, minMarks) ==
   IF stack = <<>> THEN res
   ELSE
     LET n == Len(stack) mr == stack[n] rest == SubSeq(stack, 1, n - 1) IN
-    IF ~may[mr] THEN Excl(may, rest, res, coarse, minMarks)
+    IF ~may[mr] THEN Excl(dv, may, rest, res, coarse, minMarks)
     ELSE IF mr[2] = mr[1] + 1
     THEN IF res = <<>> \/ mr[1] - res[Len(res)][2] > minMarks
-           THEN Excl(may, rest, Append(res, mr), coarse, minMarks)
-           ELSE Excl(may, rest, [res EXCEPT ![Len(res)] = <<res[Len(res)][1], mr[2]>>], coarse, minMarks)
+           THEN Excl(dv, may, rest, Append(res, mr), coarse, minMarks)
+           ELSE Excl(dv, may, rest, [res EXCEPT ![Len(res)] = <<res[Len(res)][1], mr[2]>>], coarse, minMarks)
     ELSE LET step == (mr[2] - mr[1] - 1) \div coarse + 1
-         IN Excl(may, rest \o Pushes(mr[1], mr[2], step, <<>>), res, coarse, minMarks)
+         IN Excl(dv, may, rest \o Pushes(dv, mr[1], mr[2], step, <<>>), res, coarse, minMarks)
 
-ExclusionSearch(may, nf, coarse, minMarks) ==
-  LET res == Excl(may, << <<0, nf>> >>, <<>>, coarse, minMarks)
+ExclusionSearch(dv, may, nf, coarse, minMarks) ==
+  LET res == Excl(dv, may, << <<0, nf>> >>, <<>>, coarse, minMarks)
   IN UNION {res[i][1]..(res[i][2] - 1) : i \in 1..Len(res)}
 
 \* the reader settings replayed by the harness: name -> (force exclusion search, CoarseIndexFragment, minMarksForSeek)
@@ -355,7 +406,7 @@ MayTab(dv, rpn, idx, nf) ==
 \* PKIndexReaderImpl.Scan for one setting, given the table
 ScanSel(dv, rpn, may, nf, st) ==
   LET bin == (MaxKeyIndex(rpn) = 1 \/ "binary_search_always" \in dv) /\ ~st[1]   \* CanDoBinarySearch: only the first key column is used
-  IN IF bin THEN BinarySearch(may, nf) ELSE ExclusionSearch(may, nf, st[2], st[3])
+  IN IF bin THEN BinarySearch(dv, may, nf) ELSE ExclusionSearch(dv, may, nf, st[2], st[3])
 
 MatchFrags(c, rs, gg) == {FragOfRow(i, gg) : i \in {j \in 1..Len(rs) : Eval(c, rs[j])}}
 
@@ -368,31 +419,40 @@ AsImplemented == {"right_bound_overwrites", "unknown_op_drops_element", "matchph
 Fails(dv, rpn) == rpn # <<>> /\ (~StackOK(rpn, 1, 0) \/ ("in_is_error" \in dv /\ HasIn(rpn)))
 
 \* [fails, may, sel]: the outcome of Scan under the deviations dv, for the settings named in SettingNames
-SelFor(dv, ty, c, rs, gg) ==
+SelForS(dv, names, ty, c, rs, gg) ==
   LET idx == Index(dv, rs, gg)
       nf  == NFrag(Len(rs), gg)
       rpn == ToRPN(dv, ty, c)
-  IN IF Fails(dv, rpn) THEN [fails |-> TRUE, may |-> <<>>, sel |-> [s \in SettingNames |-> {}]]
+  IN IF Fails(dv, rpn) THEN [fails |-> TRUE, may |-> <<>>, sel |-> [s \in names |-> {}]]
      ELSE IF rpn = <<>>                             \* HavePrimaryKey() = false: the index is not used
-     THEN [fails |-> FALSE, may |-> [pr \in Pairs(nf) |-> TRUE], sel |-> [s \in SettingNames |-> 0..(nf - 1)]]
+     THEN [fails |-> FALSE, may |-> [pr \in Pairs(nf) |-> TRUE], sel |-> [s \in names |-> 0..(nf - 1)]]
      ELSE LET may == MayTab(dv, rpn, idx, nf)
-          IN [fails |-> FALSE, may |-> may, sel |-> [s \in SettingNames |-> ScanSel(dv, rpn, may, nf, Settings[s])]]
+          IN [fails |-> FALSE, may |-> may, sel |-> [s \in names |-> ScanSel(dv, rpn, may, nf, Settings[s])]]
+SelFor(dv, ty, c, rs, gg) == SelForS(dv, SettingNames, ty, c, rs, gg)
 
 NoSel == [fails |-> FALSE, may |-> <<>>, sel |-> <<>>]
 
 AllO(kk) == [i \in 1..kk |-> "o"]
 
-ScanOut(c, rs, gg, ty) ==
-  LET impl == IF WithImpl THEN SelFor(Dev \cup AsImplemented, ty, c, rs, gg) ELSE NoSel
+ScanOutW(wi, names, c, rs, gg, ty) ==
+  LET impl == IF wi THEN SelForS(Dev \cup AsImplemented, names, ty, c, rs, gg) ELSE NoSel
   IN
   [ match  |-> MatchFrags(c, rs, gg),
-    design |-> SelFor(Dev, ty, c, rs, gg),                       \* the design (plus the mutation seeds in Dev)
+    design |-> SelForS(Dev, names, ty, c, rs, gg),                       \* the design (plus the mutation seeds in Dev)
     impl   |-> impl,                                             \* the as-implemented model
     \* the as-implemented model when no column is an integer column (the harness' predictor for F-C20-2)
-    implo  |-> IF WithImpl /\ ty # AllO(Len(ty)) THEN SelFor(Dev \cup AsImplemented, AllO(Len(ty)), c, rs, gg) ELSE impl,
+    implo  |-> IF wi /\ ty # AllO(Len(ty)) THEN SelForS(Dev \cup AsImplemented, names, AllO(Len(ty)), c, rs, gg) ELSE impl,
     \* the as-implemented model without right_bound_overwrites (tells F-C20-4 from F-C20-1 when both could apply)
-    implmp |-> IF WithImpl /\ HasMatchPhrase(c)
-                 THEN SelFor(Dev \cup (AsImplemented \ {"right_bound_overwrites"}), ty, c, rs, gg) ELSE impl ]
+    implmp |-> IF wi /\ HasMatchPhrase(c)
+                 THEN SelForS(Dev \cup (AsImplemented \ {"right_bound_overwrites"}), names, ty, c, rs, gg) ELSE impl ]
+ScanOut(c, rs, gg, ty) == ScanOutW(WithImpl, SettingNames, c, rs, gg, ty)
+
+\* what the Scan step of an exported behaviour carries
+ScanExp(o) == [match |-> SetSeq(o.match), implerr |-> o.impl.fails,
+               sel  |-> [s \in DOMAIN o.design.sel |-> SetSeq(o.design.sel[s])],
+               impl |-> [s \in DOMAIN o.impl.sel |-> SetSeq(o.impl.sel[s])],
+               implo |-> [s \in DOMAIN o.implo.sel |-> SetSeq(o.implo.sel[s])],
+               implmp |-> [s \in DOMAIN o.implmp.sel |-> SetSeq(o.implmp.sel[s])]]
 
 -----------------------------------------------------------------------------
 Log(a, args, exp) == hist' = Append(hist, [a |-> a, args |-> args, exp |-> exp])
@@ -432,11 +492,7 @@ Scan ==
   /\ phase' = "done"
   /\ out' = ScanOut(FullCond(cond, tb), rows, g, ct)
   /\ UNCHANGED <<k, rows, g, ct, cond, tb>>
-  /\ Log("Scan", <<>>, [match |-> SetSeq(out'.match), implerr |-> out'.impl.fails,
-                        sel  |-> [s \in DOMAIN out'.design.sel |-> SetSeq(out'.design.sel[s])],
-                        impl |-> [s \in DOMAIN out'.impl.sel |-> SetSeq(out'.impl.sel[s])],
-                        implo |-> [s \in DOMAIN out'.implo.sel |-> SetSeq(out'.implo.sel[s])],
-                        implmp |-> [s \in DOMAIN out'.implmp.sel |-> SetSeq(out'.implmp.sel[s])]])
+  /\ Log("Scan", <<>>, ScanExp(out'))
 
 Next ==
   /\ Len(hist) < Depth
@@ -468,4 +524,39 @@ MayCoversMatch ==
 \* the selection only names existing fragments
 SelInBounds ==
   phase = "done" => \A s \in DOMAIN out.design.sel : out.design.sel[s] \subseteq 0..(NFrag(Len(rows), g) - 1)
+
+-----------------------------------------------------------------------------
+(* Distinguishing cases.  In a "done" state the case (record, fragment size, *)
+(* key columns, condition, time bounds) DISTINGUISHES the deviation D from   *)
+(* the design when the two Scans differ in a way that matters for C20: for   *)
+(* some reader setting there is a fragment with a matching row that the      *)
+(* design selects and D does not (or D fails where the design selects).      *)
+(* Every such case is a directed test: real code that has slipped the way D  *)
+(* describes must skip that fragment on it.  SparseIndexMC exports them.     *)
+RECURSIVE HasOp(_, _)
+HasOp(c, o) == IF c.t \in {"and", "or"} THEN HasOp(c.l, o) \/ HasOp(c.r, o) ELSE c.t = "cmp" /\ c.op = o
+
+\* cheap necessary conditions: they only save evaluating D's Scan where it cannot differ from the design's
+Relevant(D) ==
+  LET fc == FullCond(cond, tb)
+      mk == MaxKeyIndex(ToRPN(Dev, ct, fc))
+      n  == Len(rows)
+      nf == NFrag(n, g)
+  IN CASE D = "le_as_lt" -> HasOp(fc, "le")
+       [] D = "ge_as_gt" -> HasOp(fc, "ge")
+       [] D = "lt_as_le" -> HasOp(fc, "lt")
+       [] D = "last_fragment_off_by_one" -> n > 1 /\ rows[n - 1] # rows[n]
+       [] D = "null_as_minus_infinity" -> \E j \in 0..nf : \E i \in 1..k : IdxRowM(Dev, rows, g, j)[i] = Null
+       [] D = "stale_range_between_rectangles" -> mk >= 3
+       [] D \in {"left_point_stale", "right_point_stale", "right_bound_overwrites"} -> mk >= 2
+       [] D = "excl_drops_leftmost" -> nf >= 2
+       [] D = "matchphrase_as_equality" -> HasMatchPhrase(fc)
+       [] OTHER -> TRUE
+
+Distinguishes(D) ==
+  /\ phase = "done" /\ ~out.design.fails /\ out.match # {}
+  /\ Relevant(D)
+  /\ LET d == SelFor(Dev \cup {D}, ct, FullCond(cond, tb), rows, g)
+     IN \/ d.fails
+        \/ \E s \in DOMAIN out.design.sel : \E f \in out.match : f \in out.design.sel[s] /\ f \notin d.sel[s]
 =============================================================================
